@@ -13,6 +13,7 @@ import (
 type CheckOpts struct {
 	AllowUnused      bool // hazard "unused-binder"
 	AllowUnitTypeVar bool // hazard "unit-typevar"
+	AllowInterpStart bool // hazard "interp-block-start"
 	AllowExtPartial  bool // extension: (ext Name args) with fewer arguments as a partial application value
 	Tiny             bool // the tinyfo profile: additionally reject what tinyfo cannot take
 }
@@ -281,7 +282,23 @@ func (c *checker) wfSimpleFun(t *Type, what string) {
 	}
 }
 
+// startsWithInterp: the first token printed for e is an interpolated string. fc takes the column of
+// a $"…" token one to the right (the token starts after the $), so a block whose first line starts
+// with one gets an offside column its next line falls short of ("Unknown stmt" / "non expected token").
+func startsWithInterp(e *Expr) bool {
+	switch e.K {
+	case EInterp:
+		return true
+	case EPipe, EBin, EEq, ENeq:
+		return startsWithInterp(e.Args[0])
+	}
+	return false
+}
+
 func (c *checker) block(b *Block) *Type {
+	if len(b.Stmts) > 0 && b.Stmts[0].K == SDo && startsWithInterp(b.Stmts[0].E) && !c.opts.AllowInterpStart {
+		c.fail("a block of several lines starts with an interpolated string (fc misjudges its column)")
+	}
 	mark := len(c.env)
 	for _, s := range b.Stmts {
 		c.stmt(s)
